@@ -93,26 +93,61 @@ structure Obs where
   rpath : Bytes := []
   names : List Bytes := []
   vals : List Bytes := []
+  extra : List Bytes := []     -- `Params(k)` for the extra keys (`extraKeys`)
   deriving DecidableEq, Repr
 
+/-- the keys, other than the declared names, the harness' handler also passes to `Params` -/
+def extraKeys (names : List Bytes) : List Bytes :=
+  [[STAR], [PLUS]] ++ (match names with | n :: _ => [toUpper n, toLower n] | [] => [])
+
+/-- The model's observation of one request against an app holding the single route
+    (`Get`/`Use`)(pattern): what the harness' handler would report. -/
+def modelObs (chk : Constraint → Bytes → Bool) (cfg : Config) (use : Bool) (pattern reqPath : Bytes) : Obs :=
+  match register cfg use pattern with
+  | none => { panic := true }
+  | some r =>
+    match dispatch1 chk r (configDependentPaths cfg reqPath).2 (configDependentPaths cfg reqPath).1 with
+    | none => { ran := 0, status := 404 }
+    | some vals =>
+      { ran := 1, status := 200, path := (configDependentPaths cfg reqPath).1, rpath := r.pathRaw, names := r.params,
+        vals := r.params.map (paramsLookup cfg r.params vals),
+        extra := (extraKeys r.params).map (paramsGet cfg r.params vals) }
+
+/-- "the values reported by Params": the documented lookup — the bare keys `*` / `+` mean the first
+    wildcard / plus parameter (`*1` / `+1`); a key selects the first declared name equal to it,
+    ignoring ASCII letter case unless CaseSensitive; an unknown key gives "". -/
+def specLookup (cfg : Config) (names vals : List Bytes) (key : Bytes) : Bytes :=
+  let key := if key == [STAR] then [STAR, 49] else if key == [PLUS] then [PLUS, 49] else key
+  let same (a c : Bytes) : Bool := if cfg.caseSensitive then a == c else toLower a == toLower c
+  match (List.range names.length).find? (fun i => same (names.getD i []) key) with
+  | some i => vals.getD i []
+  | none => []
+
 /-- The property on one observation: first failing clause, or `none`.
-    `declared` = parse of the pattern as written (declared names, declared constraints);
-    `routed` = parse of the configuration-normalised pattern (what is substituted into);
+    `declared` = parse of the pattern text exactly as passed to `Get`/`Use` (the declared names:
+                 `Route().Params` is documented as the keys of the original path);
+    `written`  = parse of the pattern as written minus the trailing slashes the configuration makes
+                 insignificant (`writtenPattern`; no case folding): the declared constraints and
+                 optional / greedy marks;
+    `routed`   = the segments the route matches with (what is substituted into: constants are
+                 case-folded unless CaseSensitive);
     `chkDeclared` = the documented meaning of a constraint (exact evaluator / standard library). -/
-def specViolation (cfg : Config) (use : Bool) (declared routed : List Seg)
+def specViolation (cfg : Config) (use : Bool) (declared written routed : List Seg)
     (chkDeclared : Constraint → Bytes → Bool) (o : Obs) : Option String :=
   if o.panic then none
   else if o.ran == 0 then (if o.status == 404 then none else some "not-found-handling")
   else if o.ran != 1 then some "handler-ran-twice"
   else
-    let ps := paramSegs declared
-    if ps.isEmpty then none                     -- not a parameterised pattern
-    else if o.names != ps.map (·.paramName) then some "declared-names"
-    else if o.vals.length != ps.length || (paramSegs routed).length != ps.length then some "arity"
+    let ps := paramSegs written
+    if (paramSegs declared).isEmpty && ps.isEmpty then none   -- not a parameterised pattern
+    else if o.names != (paramSegs declared).map (·.paramName) then some "declared-names"
+    else if o.vals.length != ps.length || (paramSegs routed).length != ps.length ||
+            (paramSegs declared).length != ps.length then some "arity"
     else if !substitutionOK cfg use routed o.vals o.path then some "substitution"
     else if (constraintViolation chkDeclared ps o.vals).isSome then some "constraints"
     else if !requiredNonEmpty ps o.vals then some "required-nonempty"
     else if !namedNoSlash ps o.vals then some "named-no-slash"
+    else if o.extra != (extraKeys o.names).map (specLookup cfg o.names o.vals) then some "params-lookup"
     else none
 
 end C02
